@@ -71,23 +71,24 @@ type ClientScript struct {
 
 // OpResult is what one client op returned.
 type OpResult struct {
-	Kind      int
-	Begin     int64
-	End       int64
-	Err       string
-	IsSMTP    bool
-	Code      int
-	Enh       [3]int
-	Msg       string
-	Statuses  []string // LMTP callback invocations "rcpt=code" in order
-	DataErr   string   // error from Data()/LMTPData() itself
-	WriteErr  string
-	Close2Err string
-	Close2Set bool
-	RawBefore int // transport octets written by the client before the second Close
-	RawAfter  int
-	Skipped   bool
-	SaslCalls []string
+	Kind         int
+	Begin        int64
+	End          int64
+	Err          string
+	IsSMTP       bool
+	Code         int
+	Enh          [3]int
+	Msg          string
+	Statuses     []string // LMTP callback invocations "rcpt=code" in order
+	StatusDetail []string // the same with enhanced code and message
+	DataErr      string   // error from Data()/LMTPData() itself
+	WriteErr     string
+	Close2Err    string
+	Close2Set    bool
+	RawBefore    int // transport octets written by the client before the second Close
+	RawAfter     int
+	Skipped      bool
+	SaslCalls    []string
 }
 
 type ClientHistory struct {
@@ -244,6 +245,11 @@ func (d *clientDriver) doData(c *smtp.Client, cs *ClientScript, op *ClientOp, re
 				code = status.Code
 			}
 			res.Statuses = append(res.Statuses, fmt.Sprintf("%s=%d", rcpt, code))
+			if status != nil {
+				res.StatusDetail = append(res.StatusDetail, fmt.Sprintf("%s=%d %d.%d.%d %q", rcpt, status.Code, status.EnhancedCode[0], status.EnhancedCode[1], status.EnhancedCode[2], status.Message))
+			} else {
+				res.StatusDetail = append(res.StatusDetail, rcpt+"=ok")
+			}
 		})
 	} else {
 		w, err = c.Data()
